@@ -53,6 +53,9 @@ PROPS = {
     "C13": {"level": "exploration", "assumptions": ["the Go race detector (-race, Go 1.23.5) and the runtime's concurrent-map checks are the oracle; they see only executed paths within the detector's history window", "the harness's own runner, stores and counters are race-clean (they run under the same detector)"],
             "parts": [{"pkg": "stress", "test": "TestC13", "race": True,
                        "quick": {"checks": 60, "shards": 4, "shrink": "0s", "timeout": "15m", "env": {"GORACE": "halt_on_error=0"}},
+                       "thorough": {"checks": 1500, "shards": 16, "shrink": "0s", "timeout": "3h", "env": {"GORACE": "halt_on_error=0"}}},
+                      {"pkg": "stress", "test": "TestC13Real", "race": True,
+                       "quick": {"checks": 60, "shards": 4, "shrink": "0s", "timeout": "15m", "env": {"GORACE": "halt_on_error=0"}},
                        "thorough": {"checks": 1500, "shards": 16, "shrink": "0s", "timeout": "3h", "env": {"GORACE": "halt_on_error=0"}}}]},
     "C14": {"level": "exploration", "assumptions": PURE_ASSUME + ["HMAC-SHA256 is unforgeable; the run's secret never appears in a generated invalid credential unless the harness itself signs with it", "route discovery through the verif-only server.Routes hook + chi.Walk"],
             "parts": [rp("httpauth", "TestC14", (3000, 2), (60000, 8)),
